@@ -129,10 +129,12 @@ pub struct Names {
     pub commissions: Vec<u32>,
 }
 
-pub const DENOM: &str = "TOKEN";
+/// none of the staking parameters is the module default (TOKEN, 60 s, 10 %), so that a configured
+/// value being ignored somewhere shows
+pub const DENOM: &str = "ustake";
 pub const FOREIGN: &str = "other";
-pub const UNBONDING: u64 = 60;
-pub const APR_PCT: u32 = 10;
+pub const UNBONDING: u64 = 50;
+pub const APR_PCT: u32 = 12;
 pub const YEAR: u64 = 60 * 60 * 24 * 365;
 
 pub fn names() -> Names {
@@ -913,10 +915,10 @@ pub fn alphabet_c14(tier: Tier, full: bool) -> Vec<SOp> {
         SOp::Undelegate { d: 1, v: 0, amt: 1, denom: 0 },
         SOp::Undelegate { d: 0, v: 0, amt: 1, denom: 0 },
         SOp::Slash { v: 0, pct: 50 },
-        SOp::Advance { secs: 60 },
+        SOp::Advance { secs: UNBONDING },
         SOp::Redelegate { d: 1, src: 0, dst: 1, amt: 1 },
         SOp::Withdraw { d: 0, v: 0 },
-        SOp::Advance { secs: 59 },
+        SOp::Advance { secs: UNBONDING - 1 },
         SOp::Delegate { d: 0, v: 1, amt: 2, denom: 0 },
         SOp::Undelegate { d: 1, v: 0, amt: 2, denom: 0 },
         SOp::Slash { v: 0, pct: 100 },
@@ -1026,7 +1028,7 @@ fn finish(ctx: &Ctx, outs: Vec<(&str, &ExpOut, Vec<String>)>, extra_evals: u64, 
 
 fn std_assumptions() -> Vec<String> {
     vec![
-        "two delegators, two validators (10% and 0% commission), unbonding 60 s, apr 10%, staking parameters fixed at setup".into(),
+        "two delegators, two validators (10% and 0% commission), bonded denomination ustake, unbonding 50 s, apr 12% (none of them the module default), staking parameters fixed at setup".into(),
         "amounts and time spans far from the overflow range of the 18-decimal fixed point (excluded by the statements)".into(),
         "a listed delegation of amount zero is treated as absent".into(),
     ]
